@@ -33,3 +33,16 @@ Definition name_raises (p : string) : bool := local_raises p || math_raises p.
 
 Definition all_port_directions_rendered : bool :=
   forallb (fun d => existsb (String.eqb d) gen_latex_port_directions) ["input"; "output"; "through"].
+
+(* ---------- case files: the number of entries of each section of a real rendering against the translated assembly ---------- *)
+From Bq Require Import Expr Routine.
+Definition latex_counts (r : routine) (show_non_root : bool) : list nat :=
+  [List.length (gen_latex_param_entries r);
+   List.length (filter (fun dp => dir_eqb (fst dp) DIn) (gen_latex_port_lines r));
+   List.length (filter (fun dp => dir_eqb (fst dp) DOut) (gen_latex_port_lines r));
+   List.length (filter (fun dp => dir_eqb (fst dp) DThrough) (gen_latex_port_lines r));
+   List.length (gen_latex_resource_lines r show_non_root)].
+Fixpoint nat_list_eqb (a b : list nat) : bool :=
+  match a, b with [], [] => true | x :: a', y :: b' => Nat.eqb x y && nat_list_eqb a' b' | _, _ => false end.
+Definition check_latex_counts (r : routine) (show_non_root : bool) (real : list nat) : nat :=
+  if nat_list_eqb (latex_counts r show_non_root) real then 0%nat else 1%nat.
